@@ -10,7 +10,7 @@ open Jmes.Generated Jmes.Tie.TranslBase
 
 theorem transl2_tables :
     (T2.regions == ["findFirstBetween", "findFirstFrom", "findLastBetween", "findLastFrom", "padLeft", "padRight",
-        "padSpaceLeft", "padSpaceRight", "replaceCount", "splitCount"]
+        "padSpaceLeft", "padSpaceRight", "replaceCount", "split", "splitCount"]
       && T2.padLeft_frame == ["w", "n"] && T2.padRight_frame == ["w", "n"]
       && T2.padLeft_inputs == ["utf8.RuneCountInString(p)", "utf8.RuneCountInString(s)"]
       && T2.padRight_inputs == ["utf8.RuneCountInString(p)", "utf8.RuneCountInString(s)"]
@@ -25,6 +25,8 @@ theorem transl2_tables :
       && T2.replaceCount_frame == ["n"] && T2.replaceCount_inputs == []
       && T2.replaceCount_rets == ["nil, &negativeIntegerError{", "strings.Replace(s, po, pn, n), nil"]
       && T2.replaceCount_reaches == []
+      && T2.split_inputs == ["len(s)", "len(p)", "utf8.RuneCountInString(s)", "strings.Count(s, p)"]
+      && T2.split_rets == ["[]any{}, nil"] && T2.split_reaches == ["r := make([]any, n+1)"]
       && T2.splitCount_frame.take 1 == ["n"]
       && T2.splitCount_inputs == ["len(s)", "len(p)", "utf8.RuneCountInString(s)", "strings.Count(s, p)"]
       && T2.splitCount_rets == ["nil, &negativeIntegerError{", "[]any{s}, nil", "[]any{}, nil"]
